@@ -6,126 +6,298 @@ import (
 	"strings"
 )
 
-// C08: source facts that decide the orchestration clauses and that a quick run cannot always exhibit:
-//   - tss/ecdsa/resharing Run: the argument list of tss.NewReSharingParameters
-//   - tss/ecdsa/resharing, tss/frost/resharing NewResharing: where the constructor's threshold goes
-//   - tss/ecdsa/signing Run: the coordinator flag is ASSIGNED, unconditionally, as a top-level statement
-//   - chains/btc/executor executeResourceProps: inside the per-input loop the session id is re-declared as the hex of that
-//     input's signing hash, and what NewSigning is given
+// C08: source facts that decide orchestration clauses and that a quick run cannot always exhibit. All are located by SHAPE
+// and reported by ROLE (never by the names of locals, receivers or unexported fields / helpers):
+//   reshareRoles     tss/ecdsa/resharing Run: what the four numeric arguments of tss.NewReSharingParameters are
+//   ctorThreshold    NewResharing (ecdsa, frost): the constructor's int parameter is what Run later passes as the new threshold
+//   coordinatorFlag  tss/ecdsa/signing Run: how the bool parameter reaches the receiver's field
+//   btcSession       chains/btc/executor executeResourceProps: what signing.NewSigning gets for each input
 func init() {
 	extractors["C08"] = func(o *Out) {
-		args := func(c *ast.CallExpr) []string {
-			out := []string{}
-			for _, a := range c.Args {
-				out = append(out, Src(a))
+		recvName := func(fd *ast.FuncDecl) string {
+			if fd != nil && fd.Recv != nil && len(fd.Recv.List) == 1 && len(fd.Recv.List[0].Names) == 1 {
+				return fd.Recv.List[0].Names[0].Name
 			}
-			return out
+			return ""
 		}
-		findCall := func(n ast.Node, fun string) *ast.CallExpr {
+		// the method of <recvType> called name, or (name gone) the only one with the given parameter-list text
+		findMethod := func(f *ast.File, recvType, name, params string) *ast.FuncDecl {
+			if fd := FindFunc(f, recvType, name); fd != nil {
+				return fd
+			}
+			var hit *ast.FuncDecl
+			n := 0
+			if f != nil {
+				for _, d := range f.Decls {
+					if m, ok := d.(*ast.FuncDecl); ok && m.Recv != nil && strings.HasSuffix(Src(m.Recv.List[0].Type), recvType) && Src(m.Type.Params) == params {
+						hit = m
+						n++
+					}
+				}
+			}
+			if n == 1 {
+				return hit
+			}
+			return nil
+		}
+		firstCall := func(n ast.Node, match func(c *ast.CallExpr) bool) *ast.CallExpr {
 			var res *ast.CallExpr
 			Walk(n, func(m ast.Node) bool {
-				if c, ok := m.(*ast.CallExpr); ok && res == nil && Src(c.Fun) == fun {
+				if c, ok := m.(*ast.CallExpr); ok && res == nil && match(c) {
 					res = c
 				}
 				return true
 			})
 			return res
 		}
-		// 1. resharing parameters
-		rf := o.ParseFile("tss/ecdsa/resharing/resharing.go")
-		rsArgs := []string{}
-		if fd := FindFunc(rf, "Resharing", "Run"); fd != nil {
-			if c := findCall(fd.Body, "tss.NewReSharingParameters"); c != nil {
-				rsArgs = args(c)
-			}
-		}
-		o.Facts["resharing_params_args"] = rsArgs
-		o.Lean.WriteString("/-- arguments of `tss.NewReSharingParameters(…)` in ecdsa `Resharing.Run`, in order -/\n")
-		o.Lean.WriteString("def reshareArgs : List String := " + LeanStrList(rsArgs) + "\n\n")
-		// 2. where the constructor's threshold goes
-		ctor := func(file string) []string {
-			out := []string{}
-			f := o.ParseFile(file)
-			if fd := FindFunc(f, "", "NewResharing"); fd != nil {
-				Walk(fd.Body, func(n ast.Node) bool {
-					switch x := n.(type) {
-					case *ast.KeyValueExpr:
-						if Src(x.Value) == "threshold" {
-							out = append(out, Src(x.Key)+": threshold")
-						}
-					case *ast.AssignStmt:
-						if x.Tok == token.ASSIGN && len(x.Rhs) == 1 && Src(x.Rhs[0]) == "threshold" {
-							out = append(out, Src(x.Lhs[0])+" = threshold")
-						}
+		// definitions `x := <expr>` / `x, err := <expr>` / `x = <expr>` of identifiers inside a body (last one wins)
+		defs := func(body ast.Node) map[string]ast.Expr {
+			m := map[string]ast.Expr{}
+			Walk(body, func(n ast.Node) bool {
+				if a, ok := n.(*ast.AssignStmt); ok && len(a.Rhs) == 1 && len(a.Lhs) >= 1 {
+					if id, ok := a.Lhs[0].(*ast.Ident); ok {
+						m[id.Name] = a.Rhs[0]
 					}
-					return true
-				})
-			}
-			return out
-		}
-		e, fr := ctor("tss/ecdsa/resharing/resharing.go"), ctor("tss/frost/resharing/resharing.go")
-		o.Facts["ecdsa_newresharing_threshold"] = e
-		o.Facts["frost_newresharing_threshold"] = fr
-		o.Lean.WriteString("/-- uses of the constructor argument `threshold` in ecdsa / frost `NewResharing` -/\n")
-		o.Lean.WriteString("def ecdsaCtorThreshold : List String := " + LeanStrList(e) + "\n")
-		o.Lean.WriteString("def frostCtorThreshold : List String := " + LeanStrList(fr) + "\n")
-		// frost Run passes r.key.Key (whose Threshold the constructor set) to RefreshTaproot
-		ff := o.ParseFile("tss/frost/resharing/resharing.go")
-		refresh := []string{}
-		if fd := FindFunc(ff, "Resharing", "Run"); fd != nil {
-			if c := findCall(fd.Body, "frost.RefreshTaproot"); c != nil && len(c.Args) > 0 {
-				refresh = append(refresh, Src(c.Args[0]))
-			}
-		}
-		o.Lean.WriteString("def frostRefreshConfig : List String := " + LeanStrList(refresh) + "\n\n")
-		// 3. the coordinator flag in ecdsa signing Run
-		sf := o.ParseFile("tss/ecdsa/signing/signing.go")
-		flag := []string{}
-		if fd := FindFunc(sf, "Signing", "Run"); fd != nil {
-			for _, st := range fd.Body.List { // top-level statements only: an assignment under an `if` does not count
-				if a, ok := st.(*ast.AssignStmt); ok && len(a.Lhs) == 1 && Src(a.Lhs[0]) == "s.coordinator" {
-					flag = append(flag, Src(a))
-				}
-			}
-			Walk(fd.Body, func(n ast.Node) bool {
-				if a, ok := n.(*ast.AssignStmt); ok && len(a.Lhs) == 1 && Src(a.Lhs[0]) == "s.coordinator" {
-					flag = append(flag, "any:"+Src(a))
 				}
 				return true
 			})
+			return m
 		}
-		o.Facts["signing_run_coordinator_assignments"] = flag
-		o.Lean.WriteString("/-- assignments to `s.coordinator` in ecdsa `Signing.Run`: top-level ones, then (prefixed `any:`) all of them -/\n")
-		o.Lean.WriteString("def coordinatorAssignments : List String := " + LeanStrList(flag) + "\n\n")
-		// 4. per-input session id in the BTC executor
-		bf := o.ParseFile("chains/btc/executor/executor.go")
-		loopDecl, signArgs := []string{}, []string{}
-		if fd := FindFunc(bf, "Executor", "executeResourceProps"); fd != nil {
-			Walk(fd.Body, func(n ast.Node) bool {
-				rs, ok := n.(*ast.RangeStmt)
-				if !ok || Src(rs.X) != "tx.TxIn" {
-					return true
-				}
-				for _, st := range rs.Body.List {
-					if a, ok := st.(*ast.AssignStmt); ok && a.Tok == token.DEFINE && len(a.Lhs) >= 1 {
-						names := []string{}
-						for _, l := range a.Lhs {
-							names = append(names, Src(l))
-						}
-						loopDecl = append(loopDecl, strings.Join(names, ",")+" := "+Src(a.Rhs[0]))
+		callFun := func(e ast.Expr) (string, []ast.Expr) {
+			if c, ok := e.(*ast.CallExpr); ok {
+				return Src(c.Fun), c.Args
+			}
+			return "", nil
+		}
+		intParam := func(fd *ast.FuncDecl, typ string) string { // the only parameter of that type
+			name, n := "", 0
+			for _, f := range fd.Type.Params.List {
+				if Src(f.Type) == typ {
+					for _, id := range f.Names {
+						name = id.Name
+						n++
 					}
 				}
-				if c := findCall(rs.Body, "signing.NewSigning"); c != nil {
-					signArgs = args(c)
-				}
-				return false
-			})
+			}
+			if n == 1 {
+				return name
+			}
+			return ""
 		}
-		o.Facts["btc_loop_declarations"] = loopDecl
-		o.Facts["btc_newsigning_args"] = signArgs
-		o.Lean.WriteString("/-- `:=` declarations at the top of the body of `for i := range tx.TxIn` in executeResourceProps -/\n")
-		o.Lean.WriteString("def btcLoopDecls : List String := " + LeanStrList(loopDecl) + "\n")
-		o.Lean.WriteString("/-- arguments of `signing.NewSigning(…)` in that loop -/\n")
-		o.Lean.WriteString("def btcNewSigningArgs : List String := " + LeanStrList(signArgs) + "\n")
+
+		// ---------------------------------------------------------------- 1. resharing parameters (ecdsa)
+		rf := o.ParseFile("tss/ecdsa/resharing/resharing.go")
+		ctor := FindFunc(rf, "", "NewResharing")
+		// the field of Resharing that the constructor fills from its int parameter
+		ctorField := func(f *ast.File, c *ast.FuncDecl) string {
+			if c == nil {
+				return ""
+			}
+			p := intParam(c, "int")
+			field := ""
+			Walk(c.Body, func(n ast.Node) bool {
+				if kv, ok := n.(*ast.KeyValueExpr); ok && p != "" && Src(kv.Value) == p {
+					if id, ok := kv.Key.(*ast.Ident); ok && id.Name != "Threshold" {
+						field = id.Name
+					}
+				}
+				return true
+			})
+			return field
+		}
+		ownField := ctorField(rf, ctor)
+		roles := []string{}
+		rolesOK := false
+		if run := FindFunc(rf, "Resharing", "Run"); run != nil {
+			rv := recvName(run)
+			d := defs(run.Body)
+			if c := firstCall(run.Body, func(c *ast.CallExpr) bool { return Src(c.Fun) == "tss.NewReSharingParameters" }); c != nil && len(c.Args) == 8 {
+				// the party lists behind the two peer contexts
+				ctxParties := func(e ast.Expr) string {
+					if id, ok := e.(*ast.Ident); ok {
+						if fn, args := callFun(d[id.Name]); fn == "tss.NewPeerContext" && len(args) == 1 {
+							return Src(args[0])
+						}
+					}
+					return ""
+				}
+				oldP, newP := ctxParties(c.Args[1]), ctxParties(c.Args[2])
+				// the start-parameter variable: the one whose `.OldSubset` the old parties are built from
+				spVar := ""
+				if fn, args := callFun(d[oldP]); strings.HasSuffix(fn, "PartiesFromPeers") && len(args) == 1 {
+					if sel, ok := args[0].(*ast.SelectorExpr); ok && sel.Sel.Name == "OldSubset" {
+						spVar = Src(sel.X)
+					}
+				}
+				role := func(e ast.Expr) string {
+					s := Src(e)
+					switch {
+					case oldP != "" && s == "len("+oldP+")":
+						return "old-count"
+					case newP != "" && s == "len("+newP+")":
+						return "new-count"
+					case spVar != "" && s == spVar+".OldThreshold":
+						return "announced-old-threshold"
+					case rv != "" && ownField != "" && s == rv+"."+ownField:
+						return "own-new-threshold"
+					}
+					return "other"
+				}
+				if oldP != "" && newP != "" && spVar != "" && ownField != "" {
+					rolesOK = true
+					for _, a := range c.Args[4:8] {
+						roles = append(roles, role(a))
+					}
+				}
+			}
+		}
+		if !rolesOK {
+			o.Unavailable("reshareRoles", "NewReSharingParameters call / the definitions of its peer contexts / the constructor's threshold field not located")
+		}
+		o.Facts["reshare_roles"] = roles
+		o.Lean.WriteString("/-- ecdsa `Resharing.Run`: the roles of arguments 5–8 of `tss.NewReSharingParameters` (party count, threshold, new party\n    count, new threshold) -/\n")
+		o.Lean.WriteString("def reshareRoles : Option (List String) := " + LeanOpt(rolesOK, LeanStrList(roles)) + "\n\n")
+
+		// ---------------------------------------------------------------- 2. frost: where the constructor's threshold goes
+		ff := o.ParseFile("tss/frost/resharing/resharing.go")
+		fctor := FindFunc(ff, "", "NewResharing")
+		frostOK := false
+		frostFacts := []string{}
+		if fctor != nil {
+			p := intParam(fctor, "int")
+			keyVar := ""
+			Walk(fctor.Body, func(n ast.Node) bool { // `<key>.Key.Threshold = <param>`
+				if a, ok := n.(*ast.AssignStmt); ok && a.Tok == token.ASSIGN && len(a.Lhs) == 1 && len(a.Rhs) == 1 && p != "" && Src(a.Rhs[0]) == p {
+					if s := Src(a.Lhs[0]); strings.HasSuffix(s, ".Key.Threshold") {
+						keyVar = strings.TrimSuffix(s, ".Key.Threshold")
+					}
+				}
+				return true
+			})
+			field := ctorField(ff, fctor)
+			// the field of the struct the key variable is stored in
+			keyField := ""
+			Walk(fctor.Body, func(n ast.Node) bool {
+				if kv, ok := n.(*ast.KeyValueExpr); ok && keyVar != "" && Src(kv.Value) == keyVar {
+					if id, ok := kv.Key.(*ast.Ident); ok {
+						keyField = id.Name
+					}
+				}
+				return true
+			})
+			if run := FindFunc(ff, "Resharing", "Run"); run != nil && p != "" {
+				rv := recvName(run)
+				if c := firstCall(run.Body, func(c *ast.CallExpr) bool { return Src(c.Fun) == "frost.RefreshTaproot" }); c != nil && len(c.Args) >= 1 {
+					frostOK = true
+					if keyVar != "" {
+						frostFacts = append(frostFacts, "config-threshold-set")
+					}
+					if field != "" {
+						frostFacts = append(frostFacts, "stored-threshold-field-set")
+					}
+					if keyField != "" && rv != "" && Src(c.Args[0]) == rv+"."+keyField+".Key" {
+						frostFacts = append(frostFacts, "refresh-uses-that-config")
+					}
+				}
+			}
+		}
+		if !frostOK {
+			o.Unavailable("frostThreshold", "frost NewResharing / the RefreshTaproot call in Run not located")
+		}
+		o.Lean.WriteString("/-- frost resharing: the constructor's int parameter is written into the key configuration, kept in a field of the process,\n    and Run hands that configuration to `frost.RefreshTaproot` -/\n")
+		o.Lean.WriteString("def frostThreshold : Option (List String) := " + LeanOpt(frostOK, LeanStrList(frostFacts)) + "\n\n")
+
+		// ---------------------------------------------------------------- 3. the coordinator flag in ecdsa signing Run
+		sf := o.ParseFile("tss/ecdsa/signing/signing.go")
+		flag := ""
+		flagOK := false
+		if run := findMethod(sf, "Signing", "Run", "(ctx context.Context, coordinator bool, resultChn chan interface{}, params []byte)"); run != nil {
+			rv := recvName(run)
+			bp := intParam(run, "bool")
+			top, nested := 0, 0
+			if rv != "" && bp != "" {
+				isFlagAssign := func(a *ast.AssignStmt) bool {
+					if len(a.Lhs) != 1 || len(a.Rhs) != 1 {
+						return false
+					}
+					sel, ok := a.Lhs[0].(*ast.SelectorExpr)
+					return ok && Src(sel.X) == rv && (Src(a.Rhs[0]) == bp || Src(a.Rhs[0]) == "true" || Src(a.Rhs[0]) == "false")
+				}
+				for _, st := range run.Body.List {
+					if a, ok := st.(*ast.AssignStmt); ok && isFlagAssign(a) && Src(a.Rhs[0]) == bp {
+						top++
+					}
+				}
+				Walk(run.Body, func(n ast.Node) bool {
+					if a, ok := n.(*ast.AssignStmt); ok && isFlagAssign(a) {
+						nested++
+					}
+					return true
+				})
+				if nested > 0 { // located (if nothing assigns the flag here it was moved elsewhere: unavailable)
+					flagOK = true
+					if top == 1 && nested == 1 {
+						flag = "assigned-unconditionally-once"
+					} else {
+						flag = "conditional-or-repeated"
+					}
+				}
+			}
+		}
+		if !flagOK {
+			o.Unavailable("coordinatorFlag", "no assignment of Run's bool parameter to a field of the receiver found in ecdsa Signing.Run")
+		}
+		o.Lean.WriteString("/-- ecdsa `Signing.Run`: how its bool parameter reaches the receiver's coordinator field -/\n")
+		o.Lean.WriteString("def coordinatorFlag : Option String := " + LeanOpt(flagOK, LeanStr(flag)) + "\n\n")
+
+		// ---------------------------------------------------------------- 4. per-input session in the BTC executor
+		bf := o.ParseFile("chains/btc/executor/executor.go")
+		sess := []string{}
+		sessOK := false
+		if fd := findMethod(bf, "Executor", "executeResourceProps", "(props []*BtcTransferProposal, resource config.Resource, messageID string)"); fd != nil {
+			var loopBody *ast.BlockStmt
+			Walk(fd.Body, func(n ast.Node) bool { // the loop (range or 3-clause for) that contains the NewSigning call
+				var body *ast.BlockStmt
+				switch l := n.(type) {
+				case *ast.RangeStmt:
+					body = l.Body
+				case *ast.ForStmt:
+					body = l.Body
+				}
+				if body != nil && firstCall(body, func(c *ast.CallExpr) bool { return strings.HasSuffix(Src(c.Fun), ".NewSigning") }) != nil {
+					loopBody = body
+				}
+				return true
+			})
+			if loopBody != nil {
+				d := defs(loopBody) // definitions INSIDE the loop body only
+				c := firstCall(loopBody, func(c *ast.CallExpr) bool { return strings.HasSuffix(Src(c.Fun), ".NewSigning") })
+				if len(c.Args) == 8 {
+					sessOK = true
+					msg, sid := Src(c.Args[1]), Src(c.Args[4])
+					if fn, _ := callFun(d[msg]); fn == "txscript.CalcTaprootSignatureHash" {
+						sess = append(sess, "msg=this-input's-signature-hash")
+					} else {
+						sess = append(sess, "msg=other")
+					}
+					if strings.HasSuffix(Src(c.Args[2]), ".Tweak") {
+						sess = append(sess, "tweak=resource-tweak")
+					} else {
+						sess = append(sess, "tweak=other")
+					}
+					if fn, args := callFun(d[sid]); fn == "hex.EncodeToString" && len(args) == 1 && Src(args[0]) == msg {
+						sess = append(sess, "session=hex(msg),per-input")
+					} else {
+						sess = append(sess, "session=other")
+					}
+				}
+			}
+		}
+		if !sessOK {
+			o.Unavailable("btcSession", "executeResourceProps / the loop calling signing.NewSigning not located")
+		}
+		o.Facts["btc_session"] = sess
+		o.Lean.WriteString("/-- BTC `executeResourceProps`, inside the per-input loop: what `signing.NewSigning` is given as message, tweak and session id -/\n")
+		o.Lean.WriteString("def btcSession : Option (List String) := " + LeanOpt(sessOK, LeanStrList(sess)) + "\n")
 	}
 }
